@@ -3,6 +3,7 @@
 pub mod caches;
 pub mod drivers;
 pub mod drivers2;
+pub mod faults;
 pub mod points;
 pub mod ops;
 pub mod ops2;
